@@ -137,8 +137,8 @@ def rule_sinks(ck: Check, repo: Repo, cg: CallGraph, ot: OrderTaint) -> None:
                         f"expected {frag}", repo.loc(bom))
 
 
-def rule_pool(ck: Check, repo: Repo) -> None:
-    r = ck.rule("R2", "multiprocessing: order-preserving map over the same file list; workers re-create the same state")
+def rule_pool(ck: Check, repo: Repo, rid: str = "R2") -> None:
+    r = ck.rule(rid, "multiprocessing: order-preserving map over the same file list; workers re-create the same state")
     q = "reuse.report._generate_file_reports"
     fn = repo.func(q)
     ck.analysed_fn(q, "reuse.report._MultiprocessingContainer.__call__")
@@ -418,6 +418,22 @@ def rule_scan_loop_state(ck: Check, repo: Repo, rid: str = "R12") -> None:
                         f"`{cont}` is updated inside the loop over {ast.unparse(loop.iter)[:40]}, whose order is the file system's: with"
                         f" `LICENSES/LicenseRef-foo.bar` and `LicenseRef-foo.bar.txt` the outcome (two licences or a RuntimeError) depends"
                         f" on which entry the scan meets first", repo.loc(x))
+    # a plain store `D[k] = v` keeps the LAST writer: which file that is depends on the order of the scan unless a second
+    # writer for the same key is refused (`if k in D: raise`) on the same container
+    for x in ast.walk(loop):
+        if isinstance(x, ast.Assign) and len(x.targets) == 1 and isinstance(x.targets[0], ast.Subscript) and isinstance(x.value, ast.Name):
+            cont = ast.unparse(x.targets[0].value)
+            key = ast.unparse(x.targets[0].slice)
+            if cont.startswith("self.licenses_without_extension"):
+                continue   # same key => same identifier => the duplicate refusal below has already fired
+            guarded = any(isinstance(g, ast.If) and ast.unparse(g.test) in (f"{key} in {cont}",) and any(isinstance(y, ast.Raise) for y in ast.walk(g))
+                          for g in ast.walk(loop))
+            r.instance(f"store:{cont}[{key}]", {"container": cont, "key": key, "second_writer_refused": guarded}, q)
+            if not guarded:
+                r.violation(q, f"`{cont}[{key}] = …` keeps the last of several writers and no `if {key} in {cont}: raise` precedes it",
+                            f"two licence files that resolve to one identifier (`LicenseRef-Custom.txt` and `LicenseRef-Custom.md`): the one the"
+                            f" scan meets last wins - SPDX ExtractedText and the reported licence path differ with the directory listing order",
+                            repo.loc(x))
     r.floor(3, "reads of scan-updated containers", got=n)
 
 
